@@ -27,8 +27,8 @@ MODULES = {pid: [f"Boario.Properties.{pid}"] for pid in THEOREMS}
 STREAMS = {
     "C03": [("shortage", 24, 300), ("shocked", 16, 200)],
     "C04": [("shocked", 24, 300), ("shortage", 16, 200)],
-    "C05": [("shocked", 16, 200), ("shortage", 12, 150), ("crash", 12, 150)],
-    "C06": [("shocked", 24, 300), ("shortage", 16, 200)],
+    "C05": [("shocked", 12, 200), ("shortage", 8, 150), ("crash", 10, 150), ("starve", 8, 60), ("mild", 8, 100)],
+    "C06": [("shocked", 16, 300), ("shortage", 12, 200), ("mild", 16, 200)],
     "C07": [("shocked", 30, 400), ("excess", 10, 100)],
     "C14": [("shocked", 20, 300), ("shortage", 20, 200)],
 }
